@@ -945,22 +945,54 @@ class CallGraph:
                                 self.edges[n].add(base)
                                 self.call_sites[base].append((n, blk["id"]))
         # task roots and spawn boundary
+        wrappers = {}
         for n, b in facts.bodies.items():
             for bb, t in b.calls():
                 base = t["callee"]["base"]
                 how = "spawn" if base in TASK_SPAWN else "block_on" if base in TASK_BLOCK_ON else "spawn_blocking" if base in SPAWN_BLOCKING else None
-                if how is None or not t["args"] or t["args"][0]["k"] == "const":
+                fi = 1 if base.endswith("Builder::spawn") else 0   # `Builder::spawn(self, future)`
+                if how is None or len(t["args"]) <= fi or t["args"][fi]["k"] == "const":
                     continue
-                for kind, x, pb in b.prov.direct_producers(t["args"][0]["place"]["local"]):
+                fl_ = t["args"][fi]["place"]["local"]
+                if 1 <= fl_ <= b.argc and how == "spawn":
+                    wrappers[n] = fl_      # `fn spawn_named(fut: F) { task::spawn(fut) }`
+                for kind, x, pb in b.prov.direct_producers(fl_):
+                    tgt = None
+                    if kind == "call" and x["callee"]:
+                        tgt = x["callee"]["rbase"] or x["callee"]["base"]
+                    elif kind == "agg":
+                        tgt = x["rv"].get("coroutine") or x["rv"].get("closure")
+                        # an async block that merely wraps a future handed to the enclosing function (`async move { fut.await }`)
+                        if how == "spawn" and x["rv"].get("coroutine"):
+                            for o in x["rv"]["ops"]:
+                                ol = o["place"]["local"] if o["k"] in ("copy", "move") and not o["place"]["proj"] else None
+                                if ol is not None and 1 <= ol <= b.argc:
+                                    ty_ = b.locals[ol]["ty"]
+                                    # a future-typed parameter: a bare type parameter (`F`), `impl Future`, or a boxed / pinned future
+                                    if re.match(r"^[A-Z]\w*$", ty_) or "Future" in ty_:
+                                        wrappers[n] = ol
+                    if tgt in local:
+                        self.spawn_roots[tgt].append((how, n, bb))
+                        if how in ("spawn", "spawn_blocking"):
+                            self.spawn_edges.add((n, tgt))
+        # spawn wrappers: a future passed to a local function that spawns it is spawned at that call
+        for w, pi in wrappers.items():
+            for (cn, cbb) in self.call_sites.get(w, ()):
+                if cbb is None:
+                    continue
+                cb_ = facts.bodies[cn]
+                ct = cb_.term(cbb)
+                if ct["k"] != "call" or pi - 1 >= len(ct["args"]) or ct["args"][pi - 1]["k"] == "const":
+                    continue
+                for kind, x, pb in cb_.prov.direct_producers(ct["args"][pi - 1]["place"]["local"]):
                     tgt = None
                     if kind == "call" and x["callee"]:
                         tgt = x["callee"]["rbase"] or x["callee"]["base"]
                     elif kind == "agg":
                         tgt = x["rv"].get("coroutine") or x["rv"].get("closure")
                     if tgt in local:
-                        self.spawn_roots[tgt].append((how, n, bb))
-                        if how in ("spawn", "spawn_blocking"):
-                            self.spawn_edges.add((n, tgt))
+                        self.spawn_roots[tgt].append(("spawn", cn, cbb))
+                        self.spawn_edges.add((cn, tgt))
 
     def _dispatch(self, n, t):
         base = t["callee"]["base"]
